@@ -1,3 +1,124 @@
-(* C33 -- statements (in progress) *)
-From Coq Require Import List NArith Bool.
+(* C33 -- PROXY protocol headers are honoured only from trusted upstreams.
+   Only statements and `exact`; the proofs are in Proofs/C33.v and Base/Ip.v.
+   Model: Model/Trusted.v (netutil.ParseTrustedNetworks/Contains/Host, wrapConnTimeout's policy choice,
+   go-proxyproto's reaction to the policy) over Base/Ip.v (netip.ParseAddr/ParsePrefix/Contains/Masked/Unmap). *)
+From Coq Require Import List NArith Bool String.
 From Verif Require Import Base.Hex Base.Ip Model.Trusted Proofs.C33.
+Import ListNotations.
+Open Scope N_scope.
+
+(* "A PROXY protocol header changes the client address the proxy sees only when the TCP peer's address lies
+   in the trusted networks; a header from any other peer makes the connection fail, and peers that send no
+   header keep their own address."  For every trusted list, peer (None = nil net.Addr) and first bytes. *)
+Theorem C33_header_only_from_trusted : forall t peer fb,
+  effect (policy_of t peer) fb = spec_effect (spec_trusted_peer t peer) fb /\
+  (fst (effect (policy_of t peer) fb) = RemoteHeaderSource -> contains_peer t peer = true /\ fb = HdrProxy) /\
+  (contains_peer t peer = false -> fb <> NoHdr -> effect (policy_of t peer) fb = (RemotePeer, ReadFailsSuperfluous)) /\
+  (fb = NoHdr -> effect (policy_of t peer) fb = (RemotePeer, ReadPayload)) /\
+  (contains_peer t peer = true -> fb = HdrProxy -> effect (policy_of t peer) fb = (RemoteHeaderSource, ReadPayload)).
+Proof. exact header_only_from_trusted. Qed.
+Print Assumptions C33_header_only_from_trusted.
+
+(* "CIDR membership": Prefix.Contains as Go computes it (xor/shift/mask) holds iff the address has no zone,
+   the prefix's family, and the same leading plen bits (bit i counted from the least significant end). *)
+Theorem C33_contains_iff_prefix_bits : forall p a,
+  prefix_valid p = true -> wf_addr a -> wf_addr (paddr p) ->
+  (contains p a = true <->
+   zone a = [] /\ fam a = fam (paddr p) /\
+   forall i, bit_len (fam a) - plen p <= i < bit_len (fam a) ->
+             N.testbit (abits a) i = N.testbit (abits (paddr p)) i).
+Proof. exact contains_iff_bits. Qed.
+Print Assumptions C33_contains_iff_prefix_bits.
+
+(* ... and for a whole trusted list produced by the parser (good_trusted, see C33_parsed_list_is_good):
+   a host string is trusted iff it parses as an IP whose normal form (Unmap, WithZone("")) shares the
+   family and the leading bits of some listed prefix. *)
+Theorem C33_trusted_iff_prefix_bits : forall t host,
+  good_trusted t ->
+  (contains_str t host = true <->
+   exists a p, parse_addr host = Some a /\ In p t /\
+     fam (norm_peer_ip a) = fam (paddr p) /\
+     forall i, bit_len (fam (paddr p)) - plen p <= i < bit_len (fam (paddr p)) ->
+               N.testbit (abits (norm_peer_ip a)) i = N.testbit (abits (paddr p)) i).
+Proof. exact trusted_iff_prefix_bits. Qed.
+Print Assumptions C33_trusted_iff_prefix_bits.
+
+Theorem C33_parsed_list_is_good : forall l t, parse_trusted l = Some t -> good_trusted t.
+Proof. exact parse_trusted_good. Qed.
+Print Assumptions C33_parsed_list_is_good.
+
+(* "IPv4-mapped addresses normalized": for every dotted quad d that ParseAddr accepts, the peer text
+   ::ffff:d (mapped_prefix = "::ffff:"), with or without a zone, is trusted exactly when d is. *)
+Theorem C33_mapped_equivalence : forall t d a,
+  parse_addr d = Some a -> fam a = V4 ->
+  contains_str t (mapped_prefix ++ d) = contains_str t d /\
+  forall z, z <> [] -> contains_str t ((mapped_prefix ++ d) ++ 37 :: z) = contains_str t d.
+Proof. exact mapped_equivalence. Qed.
+Print Assumptions C33_mapped_equivalence.
+
+(* "zones normalized": appending %zone (37 = '%') to an IPv6 text changes nothing. *)
+Theorem C33_zone_ignored : forall t s z a,
+  mem 37 s = false -> z <> [] -> parse_addr s = Some a -> fam a = V6 ->
+  contains_str t (s ++ 37 :: z) = contains_str t s.
+Proof. exact zone_ignored. Qed.
+Print Assumptions C33_zone_ignored.
+
+(* "non-IP": a nil address, a host that ParseAddr rejects, in particular any host without '.' and ':'
+   (unix socket paths, "pipe", "") always gets policy REJECT. *)
+Theorem C33_non_ip_never_trusted : forall t,
+  policy_of t None = REJECT /\
+  (forall s, parse_addr (host_of s) = None -> policy_of t (Some s) = REJECT) /\
+  (forall s, mem 46 (host_of s) = false -> mem 58 (host_of s) = false -> policy_of t (Some s) = REJECT).
+Proof. exact non_ip_never_trusted. Qed.
+Print Assumptions C33_non_ip_never_trusted.
+
+(* "Parsing the trusted list accepts exactly valid IPs and CIDRs and rejects IPv4-mapped forms."
+   47 = '/'.  An entry is accepted iff (no slash) ParseAddr accepts it and it is not IPv4-mapped, or
+   (slash) ParsePrefix accepts it and its address is not IPv4-mapped; the list iff every trimmed entry is. *)
+Theorem C33_parse_accepts_iff : forall s,
+  (exists p, parse_network s = Some p) <->
+  (mem 47 s = false /\ exists a, parse_addr s = Some a /\ is4in6 a = false) \/
+  (mem 47 s = true /\ exists q, parse_prefix s = Some q /\ is4in6 (paddr q) = false).
+Proof. exact parse_network_accepts_iff. Qed.
+Print Assumptions C33_parse_accepts_iff.
+
+Theorem C33_parse_list_accepts_iff : forall l,
+  (exists t, parse_trusted l = Some t) <-> Forall (fun s => exists p, parse_network (trim_space s) = Some p) l.
+Proof. exact parse_trusted_accepts_iff. Qed.
+Print Assumptions C33_parse_list_accepts_iff.
+
+(* surrounding ASCII space (\t \n \v \f \r ' ') is trimmed and nothing else *)
+Theorem C33_trim_space_spec : forall l m r,
+  spaces l -> spaces r ->
+  (m = [] \/ exists c m' e, (m = c :: m' /\ ascii_space c = false) /\ (exists m'', m = m'' ++ [e] /\ ascii_space e = false)) ->
+  trim_space (l ++ m ++ r) = m.
+Proof. exact trim_space_spec. Qed.
+Print Assumptions C33_trim_space_spec.
+
+(* "results unmapped and masked": a plain IP becomes its full-length prefix without zone; a CIDR becomes
+   ParsePrefix's result masked: not IPv4-mapped, host bits zero, and containing exactly the same addresses. *)
+Theorem C33_parse_ip_result : forall s p, mem 47 s = false -> parse_network s = Some p ->
+  exists a, parse_addr s = Some a /\ is4in6 a = false /\
+            p = mkPrefix (strip_zone a) (bit_len (fam a)) /\ zone (paddr p) = [] /\
+            prefix_valid p = true /\ wf_addr (paddr p).
+Proof. exact parse_network_ip_result. Qed.
+Print Assumptions C33_parse_ip_result.
+
+Theorem C33_parse_cidr_result : forall s p, mem 47 s = true -> parse_network s = Some p ->
+  exists q, parse_prefix s = Some q /\ is4in6 (paddr q) = false /\ p = masked q /\
+            prefix_valid p = true /\ wf_addr (paddr p) /\ zone (paddr p) = [] /\ is4in6 (paddr p) = false /\
+            (forall i, i < bit_len (fam (paddr p)) - plen p -> N.testbit (abits (paddr p)) i = false) /\
+            (forall a, contains p a = contains q a).
+Proof. exact parse_network_cidr_result. Qed.
+Print Assumptions C33_parse_cidr_result.
+
+(* Non-vacuity: the default configuration parses to 8 good prefixes; sample peers get the expected policy;
+   the premises of the mapped/zone theorems are met by concrete texts. *)
+Example C33_nonvacuous_defaults : good_trusted defaults /\
+  (exists t, new_proxy_protocol [] = Some t /\ List.length t = 8%nat /\ defaults = t).
+Proof. split; [exact defaults_good|exact defaults_parse]. Qed.
+
+Example C33_nonvacuous_premises :
+  (exists a, parse_addr (tx "10.1.2.3"%string) = Some a /\ fam a = V4) /\
+  (exists a, parse_addr (tx "fe80::1"%string) = Some a /\ fam a = V6 /\ mem 37 (tx "fe80::1"%string) = false).
+Proof. split; [exact mapped_premise_met|exact zone_premise_met]. Qed.
